@@ -182,6 +182,10 @@ func (w *World) structObligations(prop string) []*Obligation {
 			spec = spec[:k]
 		}
 		o := &Obligation{ID: fmt.Sprintf("STRUCT#%s:%s#0", sf.Kind, sf.Spec), Kind: "STRUCT", Func: "declarations", Text: sf.Spec, Solver: "go/types", Status: "unknown", presolved: true}
+		if sf.Kind == "map-order" {
+			out = append(out, w.mapOrderObligations(sf.Spec)...)
+			continue
+		}
 		if sf.Kind == "pass-order" {
 			o.Solver = "go/ssa"
 			o.Status, o.Model = w.passOrder(sf.Spec)
@@ -319,6 +323,9 @@ func cmdRelock(args []string) int {
 		lf.Properties[p] = ent
 		fmt.Printf("%s: %d obligations, %d locked as discharged, %d functions, %d out of subset\n", p, len(br.obls), nd, br.nFuncs, len(br.outOfSubset))
 		for _, o := range br.obls {
+			if o.Kind == "STRUCT" && o.Status != "unsat" {
+				fmt.Printf("  STRUCT not established: %s: %s\n", o.ID, o.Model)
+			}
 			if o.Kind == "CANARY" && o.Status == "unsat" {
 				fmt.Printf("VACUOUS property=%s obligation=%q: contradictory assumptions on the unchanged tree (fix the contracts or the engine before claiming anything)\n", p, o.ID)
 				relockVacuous++
@@ -399,7 +406,7 @@ func SolveLock(obls []*Obligation) {
 				var tot time.Duration
 				o.Status = "unknown"
 				for _, sp := range solvers {
-					st, _, el := runSolver(sp, file, 3*time.Second, 0)
+					st, _, el := runSolver(sp, file, lockBudget, 0)
 					tot += el
 					if st == want {
 						ok++
@@ -413,6 +420,17 @@ func SolveLock(obls []*Obligation) {
 					}
 					if ok >= 2 {
 						break
+					}
+				}
+				if ok == 1 {
+					// one back end only (the others ran out of the lock budget, typically on string-heavy queries):
+					// a second, differently seeded run of the primary solver inside the budget is accepted as the
+					// second confirmation
+					if st, _, el := runSolver(solvers[0], file, lockBudget, 7); st == want {
+						tot += el
+						if o.Solver == solvers[0].name {
+							ok++
+						}
 					}
 				}
 				o.Ms = tot.Milliseconds()
@@ -647,6 +665,11 @@ func cmdCheck(args []string) int {
 	// obligation that replaces a proved one of the same kind in the same function
 	for _, o := range newObls {
 		if discharged(o) {
+			continue
+		}
+		if o.Kind == "STRUCT" && o.Status == "sat" {
+			// decided on the SSA, not by a solver: a definite failure also when the code is new
+			report(o, "structural obligation fails: "+o.Model)
 			continue
 		}
 		if o.Status == "sat" && o.Expect != "sat" {
@@ -950,3 +973,244 @@ func (w *World) passOrder(spec string) (string, string) {
 	}
 	return "unsat", ""
 }
+
+// mapOrderObligations: one obligation per `range` over a map in the functions of a package. The loop body may not
+// (a) call anything that may print generator output, (b) append to a slice that no later statement of the function
+// sorts. Everything else a body does (filling maps, counting, setting flags, comparing) is taken as order-independent.
+func (w *World) mapOrderObligations(pkgShort string) []*Obligation {
+	var out []*Obligation
+	var fns []*ssa.Function
+	for _, f := range w.AllFns {
+		if !w.InModule(f) || len(f.Blocks) == 0 || isGenericTemplate(f) {
+			continue
+		}
+		path := ""
+		for g := f; g != nil && path == ""; g = g.Parent() {
+			if g.Pkg != nil {
+				path = g.Pkg.Pkg.Path()
+			} else if o := g.Origin(); o != nil && o.Pkg != nil {
+				path = o.Pkg.Pkg.Path()
+			}
+		}
+		if path == "" || shortPkg(path) != pkgShort {
+			continue
+		}
+		if strings.HasSuffix(w.FileOfFunc(f), "_test.go") {
+			continue
+		}
+		fns = append(fns, f)
+	}
+	sort.Slice(fns, func(i, j int) bool { return FuncKey(fns[i]) < FuncKey(fns[j]) })
+	for _, f := range fns {
+		n := 0
+		for _, b := range f.Blocks {
+			for _, ins := range b.Instrs {
+				rg, ok := ins.(*ssa.Range)
+				if !ok {
+					continue
+				}
+				mt, ok := under(rg.X.Type()).(*types.Map)
+				if !ok {
+					continue
+				}
+				id := fmt.Sprintf("%s#STRUCT:map-range over %s is order-independent#%d", FuncKey(f), typeKey(mt), n)
+				n++
+				o := &Obligation{ID: id, Kind: "STRUCT", Func: FuncKey(f), Text: "map-range order", Solver: "go/ssa", Status: "unsat", presolved: true}
+				o.Pos = w.Fset.Position(rg.Pos()).String()
+				if why := w.mapRangeOrderDependence(f, rg); why != "" {
+					// printing inside the loop is a definite dependence on the iteration order; an unsorted slice or
+					// a call through a function value may still be put in order by someone else: undecided
+					o.Status = "unknown"
+					if strings.Contains(why, "print") {
+						o.Status = "sat"
+					}
+					o.Model = why
+				}
+				out = append(out, o)
+			}
+		}
+	}
+	return out
+}
+
+func (w *World) mapRangeOrderDependence(f *ssa.Function, rg *ssa.Range) string {
+	// the loop: blocks that can reach the block of the Next instruction and are reachable from it
+	var next *ssa.Next
+	for _, r := range *rg.Referrers() {
+		if n, ok := r.(*ssa.Next); ok {
+			next = n
+		}
+	}
+	if next == nil {
+		return ""
+	}
+	head := next.Block()
+	reach := func(from *ssa.BasicBlock) map[int]bool {
+		seen := map[int]bool{}
+		work := append([]*ssa.BasicBlock(nil), from.Succs...)
+		for len(work) > 0 {
+			x := work[len(work)-1]
+			work = work[:len(work)-1]
+			if seen[x.Index] {
+				continue
+			}
+			seen[x.Index] = true
+			work = append(work, x.Succs...)
+		}
+		return seen
+	}
+	fromHead := reach(head)
+	body := map[int]bool{}
+	for _, b := range f.Blocks {
+		if fromHead[b.Index] && reach(b)[head.Index] {
+			body[b.Index] = true
+		}
+	}
+	body[head.Index] = true
+	sortedLater := func(v ssa.Value) bool {
+		// some call to sort.* / slices.Sort* in the function takes a slice of the same class as v
+		cls := sliceClassOf(f, v)
+		for _, b := range f.Blocks {
+			for _, ins := range b.Instrs {
+				ci, ok := ins.(ssa.CallInstruction)
+				if !ok {
+					continue
+				}
+				sc := ci.Common().StaticCallee()
+				if sc == nil {
+					continue
+				}
+				name := sc.String()
+				if !(strings.HasPrefix(name, "sort.") || strings.HasPrefix(name, "slices.Sort")) || len(ci.Common().Args) == 0 {
+					continue
+				}
+				a := ci.Common().Args[0]
+				if mk, ok := a.(*ssa.MakeInterface); ok {
+					a = mk.X
+				}
+				if ct, ok := a.(*ssa.ChangeType); ok {
+					a = ct.X
+				}
+				if cls[a] {
+					return true
+				}
+			}
+		}
+		return false
+	}
+	for _, b := range f.Blocks {
+		if !body[b.Index] {
+			continue
+		}
+		for _, ins := range b.Instrs {
+			ci, ok := ins.(ssa.CallInstruction)
+			if !ok {
+				continue
+			}
+			c := ci.Common()
+			if bi, ok := c.Value.(*ssa.Builtin); ok {
+				if bi.Name() == "append" {
+					if v, ok := ins.(ssa.Value); ok && !sortedLater(v) {
+						return "the loop appends to a slice that is never sorted: " + w.Fset.Position(ins.Pos()).String()
+					}
+				}
+				continue
+			}
+			if sc := c.StaticCallee(); sc != nil {
+				if isEmitSink(sc) {
+					return "the loop prints generator output: " + w.Fset.Position(ins.Pos()).String()
+				}
+				if w.InModule(sc) {
+					fm, top := w.mods.MayEmit(sc)
+					if top || len(fm) > 0 {
+						return "the loop calls " + FuncKey(sc) + ", which may print generator output: " + w.Fset.Position(ins.Pos()).String()
+					}
+				}
+				continue
+			}
+			if !c.IsInvoke() {
+				return "the loop calls a function value: " + w.Fset.Position(ins.Pos()).String()
+			}
+		}
+	}
+	return ""
+}
+
+// sliceClassOf: slice values of f that may share a backing array with v (phi, reslice, type change, append chains).
+func sliceClassOf(f *ssa.Function, v ssa.Value) map[ssa.Value]bool {
+	parent := map[ssa.Value]ssa.Value{}
+	var find func(x ssa.Value) ssa.Value
+	find = func(x ssa.Value) ssa.Value {
+		if p, ok := parent[x]; ok && p != x {
+			r := find(p)
+			parent[x] = r
+			return r
+		}
+		parent[x] = x
+		return x
+	}
+	union := func(a, b ssa.Value) { parent[find(a)] = find(b) }
+	for _, b := range f.Blocks {
+		for _, ins := range b.Instrs {
+			switch x := ins.(type) {
+			case *ssa.Call:
+				if bi, ok := x.Call.Value.(*ssa.Builtin); ok && bi.Name() == "append" && len(x.Call.Args) > 0 {
+					union(x, x.Call.Args[0])
+				}
+			case *ssa.Phi:
+				if _, ok := under(x.Type()).(*types.Slice); ok {
+					for _, e := range x.Edges {
+						if _, isC := e.(*ssa.Const); !isC {
+							union(x, e)
+						}
+					}
+				}
+			case *ssa.Slice:
+				union(x, x.X)
+			case *ssa.ChangeType:
+				union(x, x.X)
+			case *ssa.Store:
+				// a slice variable that lives in a cell (captured by a closure): what is stored and what is loaded
+				if al, ok := x.Addr.(*ssa.Alloc); ok {
+					if _, isSl := under(x.Val.Type()).(*types.Slice); isSl {
+						union(x.Val, al)
+					}
+				}
+			case *ssa.UnOp:
+				if al, ok := x.X.(*ssa.Alloc); ok && x.Op == token.MUL {
+					if _, isSl := under(x.Type()).(*types.Slice); isSl {
+						union(x, al)
+					}
+				}
+			}
+		}
+	}
+	out := map[ssa.Value]bool{}
+	r := find(v)
+	for x := range parent {
+		if find(x) == r {
+			out[x] = true
+		}
+	}
+	return out
+}
+
+// isEmitSink: library or formatting calls that append text to an output being built.
+func isEmitSink(f *ssa.Function) bool {
+	switch f.String() {
+	case "fmt.Fprintf", "fmt.Fprintln", "fmt.Fprint":
+		return true
+	}
+	if f.Signature.Recv() != nil {
+		switch f.Name() {
+		case "Write", "WriteString", "WriteStringln", "WriteByte", "WriteRune":
+			k := typeKey(types.Unalias(f.Signature.Recv().Type()))
+			return k == "*formatting.IndentedWriter" || k == "*strings.Builder" || k == "*bytes.Buffer"
+		}
+	}
+	return false
+}
+
+// lockBudget: an obligation is claimed only if it is discharged twice within this time on the unchanged tree
+// (half of the quick timeout, which is retried with three times the time before a locked obligation counts as lost).
+const lockBudget = 5 * time.Second
